@@ -351,6 +351,7 @@ def run_lex_stream(ctx):
     lex_compare(ctx, 'lex-marked-names', marked, segment_spec=True, spec_op='spec:segmentq')
     ctx.streams.append({'stream': 'lex-marked-names', 'cases': len(marked)})
     run_lex_pairs(ctx, marked, n // 10)
+    run_lex_alphabet(ctx)
     # 注 starts a comment only as 注： / 注<digits>：; any other text that begins with 注 is an ordinary name — 注1, 注12甲, 注册 —
     # one identifier token covering all of it (the look-ahead for the comment form must leave nothing consumed)
     note = []
@@ -379,6 +380,150 @@ def run_lex_stream(ctx):
         srcs = list(dict.fromkeys(srcs))
         lex_compare(ctx, 'lex-' + kind, srcs, segment_spec=(kind == 'segment'))
         ctx.streams.append({'stream': 'lex-' + kind, 'cases': len(srcs), 'maxlen': maxlen})
+
+
+
+# ---- the identifier alphabet, asked in every place of the lexer ---------------------------------------------------------
+
+_X, _Y = 0x7532, 0x4E59          # 甲 乙: name characters that are no keyword glyphs
+_BT = 0x60
+# the positions the manual distinguishes (name, back-ticked name) times what may stand before / after the character
+ALPHA_CORE = [
+    ('alone', lambda c: [c]), ('first', lambda c: [c, _X]), ('last', lambda c: [_X, c]), ('mid', lambda c: [_X, c, _Y]),
+    ('q-alone', lambda c: [_BT, c, _BT]), ('q-first', lambda c: [_BT, c, _X, _BT]),
+    ('q-mid', lambda c: [_BT, _X, c, _Y, _BT]), ('q-last', lambda c: [_BT, _X, c, _BT]),
+]
+ALPHA_AFTER = (
+    [('after-%s' % chr(m), (lambda m: lambda c: [m, c, _X])(m)) for m in (0x26, 0x40, 0x23, 0x3D, 0x3C, 0x3E, 0x7C, 0x25)]
+    + [('after-+', lambda c: [0x2B, c]), ('after--', lambda c: [0x2D, c, _X]), ('after-*', lambda c: [0x2A, c]),
+       ('after-/', lambda c: [0x2F, c, _X]),
+       ('after-kw', lambda c: [0x4EE4, c, _X]), ('name-kw-cp', lambda c: [_X, 0x4E3A, c]),
+       ('after-digit', lambda c: [0x31, c]), ('between-digits', lambda c: [0x31, c, 0x32])])
+ALPHA_MORE = [
+    ('after-==', lambda c: [0x3D, 0x3D, c, _X]), ('after-<=', lambda c: [0x3C, 0x3D, c]), ('after->=', lambda c: [0x3E, 0x3D, c, _X]),
+    ('name=cp', lambda c: [_X, 0x3D, c]), ('name+cp', lambda c: [_X, 0x2B, c]), ('name-cp', lambda c: [_X, 0x2D, c, _Y]),
+    ('name*cp', lambda c: [_X, 0x2A, c]), ('name/cp', lambda c: [_X, 0x2F, c, _Y]), ('name.cp', lambda c: [_X, 0x2E, c]),
+    ('name%cp', lambda c: [_X, 0x25, c]),
+    ('spaced+', lambda c: [_X, 0x20, 0x2B, 0x20, c]), ('spaced-', lambda c: [_X, 0x20, 0x2D, 0x20, c, _Y]),
+    ('spaced*', lambda c: [_X, 0x20, 0x2A, 0x20, c]), ('spaced/', lambda c: [_X, 0x20, 0x2F, 0x20, c]),
+    ('after-blank', lambda c: [_X, 0x20, c]), ('after-blank-first', lambda c: [_X, 0x20, c, _Y]),
+    ('kw-cp', lambda c: [0x4EE4, c]), ('kw-name-cp', lambda c: [0x4EE4, _X, c]), ('kw2-cp', lambda c: [0x8BBE, 0x4E3A, c, _Y]),
+    ('cp-kw', lambda c: [c, 0x4E3A, _X]), ('name-cp-kw', lambda c: [_X, c, 0x4E3A]),
+    ('kwglyph-cp', lambda c: [0x4E0D, c]), ('kwglyph-cp-kwglyph', lambda c: [0x5982, c, 0x679C]),
+    ('number.cp', lambda c: [0x31, 0x32, 0x2E, c]), ('latin-cp', lambda c: [0x61, c]), ('_cp', lambda c: [0x5F, c]),
+    ('$cp', lambda c: [0x24, c, _X]),
+    ('q-kwglyphs', lambda c: [_BT, 0x4E3A, c, 0x7684, _BT]), ('q-in-stmt', lambda c: [0x4EE4, _BT, _X, c, _BT, 0x4E3A, 0x31]),
+    ('twice', lambda c: [_X, c, c]), ('twice-first', lambda c: [c, c]),
+]
+
+
+def alphabet_points(bits, rng, nrandom):
+    """code points at which a second way of answering `is this a name character?` can differ from the table: both ends of
+    every range and the three code points outside each end (`edge`; `tight` = the ends and the first one outside), the
+    marks that continue a name and their surroundings, the edges of the 16 / 256 / 4096-aligned blocks that hold a range end
+    (`block`: where a block-shaped shortcut parts from the table; also the second / last-but-one member of every range), the same offsets one and sixteen planes up (`far`:
+    a narrowed integer), and random members / non-members."""
+    N = len(bits)
+    starts = [c for c in range(1, N) if bits[c] == '1' and bits[c - 1] == '0']
+    ends = [c for c in range(N - 1) if bits[c] == '1' and bits[c + 1] == '0']
+    tight, edge, block, far = set(), set(), set(), set()
+    for a in starts:
+        tight.update((a, a - 1))
+        edge.update((a - 2, a - 3))
+        block.add(a + 1)
+        for m in (0xF, 0xFF, 0xFFF):
+            block.update((a & ~m, (a & ~m) - 1))
+        far.update((a + 0x10000, a + 0x100000))
+    for b in ends:
+        tight.update((b, b + 1))
+        edge.update((b + 2, b + 3))
+        block.add(b - 1)
+        for m in (0xF, 0xFF, 0xFFF):
+            block.update((b | m, (b | m) + 1))
+        far.update((b + 0x10000, b + 1 + 0x10000))
+    for c in (0x2E, 0x2A, 0x2F, 0x25):
+        tight.update((c - 1, c, c + 1))
+        edge.update((c - 3, c - 2, c + 2, c + 3))
+    tight.update((0xFFFF, 0x10000))
+    edge.update((0xFFFD, 0xFFFE, 0x10001, 0x10002, 0x10FFFF))
+    ok = lambda s: {c for c in s if 0 < c <= 0x10FFFF}
+    tight = ok(tight)
+    edge = ok(edge) - tight
+    block = ok(block) - tight - edge
+    far = ok(far) - tight - edge - block
+    members = [c for c in range(N) if bits[c] == '1']
+    rnd = set(rng.sample(members, nrandom)) | {rng.randrange(1, 0x10000) for _ in range(nrandom)} | {rng.randrange(0x10000, 0x110000) for _ in range(nrandom // 4)}
+    rnd = rnd - tight - edge - block - far
+    return sorted(tight), sorted(edge), sorted(block), sorted(far), sorted(rnd)
+
+
+# switch: code points the unchanged tree is known to treat differently from the documented alphabet in some position
+# (none at present). A code point listed here is kept out of the lex-alphabet stream and reported in the evidence.
+ALPHABET_EXCLUDED = set()
+
+
+def run_lex_alphabet(ctx):
+    """`lex-alphabet`: ONE code point in every place where the lexer asks whether it is a name character — first
+    character of a name, later character (end / middle), between back-ticks (alone / start / middle / end), right after
+    every operator mark, after a keyword, after a digit — for every boundary of the regenerated identifier table.
+    Judged by `spec:lexalpha` (Spec/NameChars.lean over `linearMember` of the table): the same code point must be a name
+    character in all of these places or in none, and one that is none and has no other documented meaning is refused
+    where it stands. Exhaustive over the boundaries; the further contexts (ALPHA_MORE) rotate over the tight boundary
+    points by ctx.rng."""
+    rng = ctx.rng
+    big = not ctx.quick()                                             # thorough tier: every place for every point
+    mid = ctx.quick() and getattr(ctx, 'escalated', False)            # quick tier after a broken obligation: wider, still seconds
+    bits = ''.join(a[3:] for a in ctx.run_lean(['spec:idrange %d %d' % (lo, lo + 8192) for lo in range(0, 0x10000, 8192)]))
+    tight, edge, block, far, rnd = alphabet_points(bits, rng, 2000 if big else 300 if mid else 150)
+    full = ALPHA_CORE + ALPHA_AFTER
+    plan = []           # (template name, code point, text)
+    k_more = len(ALPHA_MORE) if big else 10 if mid else 4
+    for c in tight:
+        for name, f in full + rng.sample(ALPHA_MORE, k_more):
+            plan.append((name, c, f(c)))
+    for c in edge:
+        for name, f in full + (ALPHA_MORE if big else []):
+            plan.append((name, c, f(c)))
+    for c in block + rnd:
+        for name, f in ALPHA_CORE + (ALPHA_AFTER if (big or mid) else rng.sample(ALPHA_AFTER, 2)):
+            plan.append((name, c, f(c)))
+    for c in far:
+        for name, f in ALPHA_CORE if (big or mid) else (ALPHA_CORE[1], ALPHA_CORE[3], ALPHA_CORE[6]):
+            plan.append((name, c, f(c)))
+    plan = [p for p in plan if p[1] not in ALPHABET_EXCLUDED]
+    for key, pts in (('tight', tight), ('edge', edge), ('block', block), ('far', far), ('random', rnd)):
+        ctx.count('lex_alphabet_points_' + key, len(pts))
+    if ALPHABET_EXCLUDED:
+        ctx.count('lex_alphabet_points_excluded', len(ALPHABET_EXCLUDED))
+    cases = ['lex ' + cps(t) for _, _, t in plan]
+    go = run_go_retry(ctx, cases)
+    model = ctx.run_lean(cases)
+    spec = ctx.run_lean(['spec:lexalpha ' + cps(t) for _, _, t in plan])
+    judged = 0
+    verdicts = {}       # code point -> set of (accepted as a later character of a name?) over the judged places
+    for (name, c, t), case, g, m, sp in zip(plan, cases, go, model, spec):
+        ctx.evaluations += 1
+        if g != m:
+            ctx.disagreement('lex-alphabet', case, g, m)
+        if g.endswith(' SRC-CHANGED') or g.endswith(' RELEX-DIFFERS'):
+            ctx.violation('lex-alphabet:text-rewritten', case, g, 'lexing leaves the program text as it was, and the same text lexes the same way again')
+        if sp == 'undefined':
+            ctx.count('lex_alphabet_other_meaning_not_judged')
+            continue
+        judged += 1
+        ctx.nontriv(case)
+        ctx.count('lex_alphabet_' + ('refused' if ' err ' in sp else 'accepted'))
+        if g.split(' |')[0] != sp:
+            ctx.violation('lex-alphabet:' + name, case, g, sp)
+        if name in ('mid', 'q-alone', 'q-first', 'q-mid', 'q-last'):
+            verdicts.setdefault(c, set()).add(' err ' not in g)
+    ctx.count('lex_alphabet_judged_by_spec', judged)
+    ctx.count('lex_alphabet_verdict_depends_on_place', sum(1 for v in verdicts.values() if len(v) > 1))
+    for i in (0, len(cases) // 3, len(cases) - 1):
+        ctx.sample({'op': cases[i], 'go': go[i][:120], 'model': model[i][:120], 'spec': spec[i][:120]})
+    ctx.streams.append({'stream': 'lex-alphabet', 'cases': len(cases), 'judged_by_spec': judged,
+                        'code_points': len(tight) + len(edge) + len(block) + len(far) + len(rnd),
+                        'exhaustive': 'every boundary of the identifier table (both ends, 3 outside each) x %d places' % len(full)})
 
 
 def run_lex_pairs(ctx, marked, n):
